@@ -208,6 +208,84 @@ def probe_points(pieces, gk):
     return out
 
 
+# ------------------------------------------------------------------ independent view geometry
+def indep_camera(src):
+    """camera position of an observer from its position, FULL global orientation and cameraOffset (Points have no offset)"""
+    pos = numpy.array([src.position.x, src.position.y, src.position.z], dtype=float)
+    R = _rot(src) if hasattr(src, "orientation") else numpy.eye(3)
+    off = getattr(src, "cameraOffset", None)
+    if off is not None:
+        pos = pos + R @ numpy.array([off.x, off.y, off.z], dtype=float)
+    return pos, R
+
+
+def view_angles_of(src):
+    va = getattr(src, "viewAngles", None)
+    if va is None:
+        return 2 * math.pi, math.pi
+    return min(float(va[0]), 2 * math.pi), min(float(va[1]), math.pi)
+
+
+def view_cert(src, centre, radius):
+    """('in', margin) when the point `centre` is inside the observer's view volume by an angular / distance margin, ('out', margin)
+    when the whole ball (centre, radius) is outside it, else (None, 0).  Spherical view volume: distance <= visibleDistance, azimuth
+    (from the local +y axis) within +-h/2, altitude within +-v/2, in the frame of the true camera."""
+    cam, R = indep_camera(src)
+    h, v = view_angles_of(src)
+    d = float(src.visibleDistance)
+    w = R.T @ (numpy.array(centre, dtype=float) - cam)
+    D = float(numpy.linalg.norm(w))
+    if D < 1e-9:
+        return None, 0.0
+    az = math.atan2(w[1], w[0]) - math.pi / 2
+    az = (az + math.pi) % (2 * math.pi) - math.pi
+    alt = math.asin(max(-1.0, min(1.0, w[2] / D)))
+    m_in = min(d - D, h / 2 - abs(az) if h < 2 * math.pi else math.inf, v / 2 - abs(alt) if v < math.pi else math.inf)
+    if m_in > 1e-3:
+        return "in", m_in
+    if D - radius > d + 1e-6:
+        return "out", D - radius - d
+    if D > radius:
+        rho = math.asin(radius / D)
+        if abs(alt) - rho > v / 2 + 1e-3:
+            return "out", abs(alt) - rho - v / 2
+        if abs(alt) + rho < math.pi / 2 - 1e-6:
+            daz = math.asin(min(1.0, math.sin(rho) / math.cos(alt)))
+            if h < 2 * math.pi and abs(az) - daz > h / 2 + 1e-3 and h / 2 + daz < math.pi - 1e-3:
+                return "out", abs(az) - daz - h / 2
+    return None, 0.0
+
+
+def segment_clear(a, b, balls):
+    """no ball (centre, radius) comes within its radius of the segment a-b"""
+    ab = b - a
+    L2 = float(ab @ ab)
+    for c, r in balls:
+        t = 0.0 if L2 == 0 else max(0.0, min(1.0, float((c - a) @ ab) / L2))
+        if float(numpy.linalg.norm(a + t * ab - c)) <= r + 1e-6:
+            return False
+    return True
+
+
+def ball_of(o):
+    V = numpy.array(o.occupiedSpace.mesh.vertices, dtype=float)
+    c = numpy.array([o.position.x, o.position.y, o.position.z], dtype=float)
+    return c, float(numpy.max(numpy.linalg.norm(V - c, axis=1)))
+
+
+def indep_cansee(src, tgt, occluders):
+    """the low-level visibility routine applied to the camera position computed here from the full orientation"""
+    from scenic.core.object_types import Object
+    from scenic.core.vectors import Vector
+    from scenic.core.visibility import canSee
+    if not isinstance(src, Object):
+        return bool(src.canSee(tgt, occludingObjects=occluders))
+    cam, _ = indep_camera(src)
+    return bool(canSee(position=Vector(*[float(x) for x in cam]), orientation=src.orientation, visibleDistance=src.visibleDistance,
+                       viewAngles=src.viewAngles, rayCount=src.viewRayCount, rayDensity=src.viewRayDensity,
+                       distanceScaling=src.viewRayDistanceScaling, target=tgt, occludingObjects=occluders))
+
+
 def run_program(job):
     import scenic
     from scenic.core.distributions import RejectionException, needsSampling
@@ -265,9 +343,14 @@ def run_program(job):
         if bool(r.optional) != isinstance(r, BlanketCollisionRequirement):
             rl[-1] += " optional=" + str(r.optional)
     res["reqs"] = rl
-    res["checker"] = type(sc.checker).__name__
     res["n_checker_reqs"] = len(sc.checker.requirements)
     res["n_user"] = len(sc.userRequirements)
+    if job.get("checker") in ("basic0", "basic1"):     # the other sample checker of the public API
+        from scenic.core.sample_checking import BasicChecker
+        sc.setSampleChecker(BasicChecker(job["checker"] == "basic1"))
+    res["checker"] = type(sc.checker).__name__
+    res["blanket_in_checker"] = any(isinstance(r, BlanketCollisionRequirement) for r in sc.checker.requirements)
+    light = bool(job.get("light"))
     # scenes
     scenes = []
     budget = job.get("maxIterations", 300)   # total rejection-sampling iterations for this program
@@ -347,6 +430,10 @@ def run_program(job):
                 indep["pairs_sep"] += 1
             else:
                 indep["pairs_close"] += 1
+        if light:      # long runs: only the independent oracle above
+            scenes.append(dict(iterations=its, checks=checks, vis_checks=0, bad=bad, active=active, indep=indep,
+                               pos=[[round(float(c), 3) for c in o.position] for o in so]))
+            continue
         # pairwise overlap, all pairs
         for i, j in itertools.combinations(range(n), 2):
             a, b = so[i], so[j]
@@ -387,6 +474,37 @@ def run_program(job):
         def occl(src, tgt):
             return tuple(o for o in so if o is not src and o is not tgt and o.occluding)
         vis_n = 0
+
+        def recheck_visibility(src, o, want, kind, i):
+            """(a) the observer's own canSee with the occluders the property names; (b) the low-level routine from the camera position
+            computed HERE (position + full orientation x cameraOffset); (c) certified geometry without any Scenic visibility code:
+            target's bounding ball wholly outside the true view volume => not visible; centre inside it with margin and the sight
+            line clear of every occluder's bounding ball => visible"""
+            oc = occl(src, o)
+            info = dict(target=objs[i], source=objs[sidx[id(src)]] if id(src) in sidx else -1, n_occluders=len(oc))
+            got = bool(src.canSee(o, occludingObjects=oc))
+            if got != want:
+                bad.append(dict(info, kind=kind, cansee_without_occluders=bool(src.canSee(o))))
+                return
+            got2 = want if job.get("mode2D", False) else indep_cansee(src, o, oc)     # 2D observers use the sector test, not the ray caster
+            indep["vis_indep_camera"] = indep.get("vis_indep_camera", 0) + (0 if job.get("mode2D", False) else 1)
+            if got2 != want:
+                cam, _ = indep_camera(src)
+                bad.append(dict(info, kind=kind, how="camera position from the full orientation", camera=[float(x) for x in cam],
+                                observer_position=[float(x) for x in src.position], camera_offset=[float(x) for x in getattr(src, "cameraOffset", (0, 0, 0))]))
+                return
+            try:
+                c, r = ball_of(o)
+                cert, margin = view_cert(src, c, r)
+                if cert == "in" and not (o.containsPoint(o.position) and segment_clear(indep_camera(src)[0], c, [ball_of(x) for x in oc])):
+                    cert = None
+            except Exception:
+                cert = None
+            if cert is not None:
+                indep["vis_certified_" + cert] = indep.get("vis_certified_" + cert, 0) + 1
+                if (cert == "in") != want:
+                    bad.append(dict(info, kind=kind, how="certified view geometry: " + ("centre inside the view volume, sight line clear" if cert == "in" else "bounding ball outside the view volume"), margin=margin))
+
         for i, o in enumerate(so):
             for attr, want, kind in (("_observingEntity", True, "visible"), ("_nonObservingEntity", False, "notvisible")):
                 src = getattr(o, attr, None)
@@ -394,17 +512,11 @@ def run_program(job):
                     continue
                 checks += 1
                 vis_n += 1
-                oc = occl(src, o)
-                got = bool(src.canSee(o, occludingObjects=oc))
-                if got != want:
-                    bad.append(dict(kind=kind, target=objs[i], source=objs[sidx[id(src)]] if id(src) in sidx else -1,
-                                    n_occluders=len(oc), cansee_without_occluders=bool(src.canSee(o))))
+                recheck_visibility(src, o, want, kind, i)
             if o.requireVisible and o is not scene.egoObject:
                 checks += 1
                 vis_n += 1
-                oc = occl(scene.egoObject, o)
-                if not scene.egoObject.canSee(o, occludingObjects=oc):
-                    bad.append(dict(kind="requirevisible", target=objs[i], n_occluders=len(oc)))
+                recheck_visibility(scene.egoObject, o, True, "requirevisible", i)
         # user requirements: the harness supplied a Python predicate for each (same order)
         for idx, (pred, act) in enumerate(zip(job.get("user_preds", []), active)):
             if not act:
@@ -416,6 +528,11 @@ def run_program(job):
         scenes.append(dict(iterations=its, checks=checks, vis_checks=vis_n, bad=bad, active=active, indep=indep,
                            pos=[[round(float(c), 3) for c in o.position] for o in so]))
     res["scenes"] = scenes
+    if hasattr(sc.checker, "sortedRequirements"):
+        try:
+            res["blanket_sorted_in"] = any(isinstance(r, BlanketCollisionRequirement) for r in sc.checker.sortedRequirements())
+        except Exception:
+            pass
     res["wall"] = round(time.time() - t_start, 2)
     return res
 
